@@ -153,3 +153,21 @@ Definition tk_filtered_dir : list stm :=
 
 Definition tk_register : list stm :=
   [SIf [SEv (Rd "search_tags"); SIf [SEv (Rd "search_tags"); SIf [SEv (Rd "search_tags")] []] [SEv (Wr "search_tags")]] []; SIf [] []; SEv (Call "expand_path"); SLoop [SEv (Rd "entries"); SIf [SEv (Rd "entries")] [SEv (Call "get_source_id"); SEv (Wr "entries")]]].
+
+Definition tk_fs_add : list stm :=
+  [SIf [SEv (Call "restrict")] []; SEv (Call "register")].
+
+Definition tk_resolve_from_tag : list stm :=
+  [SEv (Rd "search_tags"); SLoop [SEv (Call "resolve_from_id"); SEv (Call "append")]; SExit].
+
+Definition tk_resolve_from_id : list stm :=
+  [SEv (Rd "simple"); SIf [SEv (Rd "simple"); SExit] []; SEv (Rd "sequence"); SExit].
+
+Definition tk_source_id_to_path : list stm :=
+  [STry [SEv (Rd "source_ids"); SExit] [("KeyError", [SEv (Rd "source_ids")])] [] []; SExit].
+
+Definition tk_collection_init : list stm :=
+  [SEv (Call "reset")].
+
+Definition tk_collection_reset : list stm :=
+  [SEv (Wr "by_path")].
